@@ -53,14 +53,17 @@ class Pair:
         self.path = os.path.join(d, name)
         open(self.path, "w").write(text)
         b = _built()
-        self.pf = tools.parse_file(b, [self.path], opts=["-E"], defs=(), cwd=d, timeout=30, env=FASTENV,
-                                   incs=["-S" + i for i in incdirs])
+        if not isinstance(incdirs, dict):
+            incdirs = {"S": list(incdirs), "I": []}
+        pinc = ["-I" + i for i in incdirs["I"]] + ["-S" + i for i in incdirs["S"]]
+        ginc = ["-I" + i for i in incdirs["I"]] + [x for i in incdirs["S"] for x in ("-isystem", i)]
+        self.pf = tools.parse_file(b, [self.path], opts=["-E"], defs=(), cwd=d, timeout=30, env=FASTENV, incs=pinc)
         if self.pf.timed_out:
             self.pf = tools.parse_file(b, [self.path], opts=["-E"], defs=(), cwd=d, timeout=60, env=FASTENV,
-                                       incs=["-S" + i for i in incdirs])
+                                       incs=pinc)
         self.got = MARK.findall(self.pf.out)
         if ref:
-            self.ref = core.run(GXX + ["-I" + i for i in incdirs] + [self.path], timeout=60, cwd=d)
+            self.ref = core.run(GXX + ginc + [self.path], timeout=60, cwd=d)
             self.exp = MARK.findall(self.ref.out)
         self.diags = [(int(m.group(1)), m.group(3), m.group(4)) for m in DIAG.finditer(self.pf.err)]
 
@@ -96,6 +99,29 @@ def seqs_of_part(case):
 
 INJ = {"define": ["#undef A", "#define A 1"], "undef": ["#undef A"], "error": ["#error injected"],
        "include": None}
+# text that must be inert wherever it stands (taken or skipped group): comments of every shape, and string / character
+# literals that contain comment openers and directive text.  g++ is the oracle; the model says "no effect at all".
+CONTENT = {
+    "c-star1": ["/* doc */"],
+    "c-star2": ["/** doc **/"],
+    "c-star3": ["/*** doc ***/"],
+    "c-star4": ["/* doc ****/"],
+    "c-star5": ["/***** doc *****/"],
+    "c-empty": ["/**/ /***/ /****/ /*****/"],
+    "c-slashes": ["/*/ tricky /*/ /* // */"],
+    "c-directive": ["/* #else", "#endif", "#elif 1 */"],
+    "c-banner": ["/*****", " * #else", " * #endif", " ****/"],
+    "c-doc-even": ["/** #endif **/ /** #else", " **/"],
+    "c-adjacent": ["int q1; /* a *//* b **//** c */ int q2;"],
+    "cpp-text": ["// #endif #else /* not closed"],
+    "cpp-bs": ["// continued on the next line \\", "#else"],
+    "cpp-bs-text": ["int q3; // continued \\", "   #endif */ /*"],
+    "str-copen": ['const char *q4 = "/* #endif";'],
+    "str-cclose": ['const char *q5 = "*/"; /* c */'],
+    "str-cpp": ['const char *q6 = "// #else"; char q7 = \'"\'; const char *q8 = "#endif";'],
+    "chr-slash": ["char q9 = '/'; char q10 = '*'; int q11 = 6/*c*/ /3;"],
+}
+INJ.update(CONTENT)
 
 
 def side_model(seq, a, seg, kind):
@@ -209,6 +235,16 @@ def run_units(ctx, case, res, units, family):
         if not suspects:
             continue
         for j, u in suspects:
+            if u[2] and u[2][1] in CONTENT:
+                # inert-text units are keyed by (text kind, group kept or not): two confirmed witnesses per class and
+                # case are enough, and they must not use up the budget of the other families
+                cls = "content_examined:%s@%s" % (u[2][1], unit_truth(u)[1])
+                if res.counters.get(cls, 0) >= 2:
+                    res.count("content_suspects_not_examined")
+                    continue
+                res.count(cls)
+                confirm_unit(ctx, d, res, u, family, counted=False)
+                continue
             if res.counters.get("failing_sequences", 0) >= MAX_EXPLAINED:
                 # enough confirmed and minimised failures from this part; the rest is counted, not examined (nothing
                 # is reported without having been confirmed alone)
@@ -251,7 +287,7 @@ def unit_fails(d, u, name="one.h"):
     return None
 
 
-def confirm_unit(ctx, d, res, u, family):
+def confirm_unit(ctx, d, res, u, family, counted=True):
     f = unit_fails(d, u)
     if f is None:
         # fine alone: the batch was desynchronised by a neighbour (which is itself reported) or by the batching
@@ -285,7 +321,10 @@ def confirm_unit(ctx, d, res, u, family):
     if minj:
         truth, segact = unit_truth(cur)
         key += ":inject=%s@%s" % (minj[1], "taken" if segact else "skipped")
-    res.count("failing_sequences")
+        if minj[1] in CONTENT:
+            # inert text that is not inert: what matters is the text and whether its group is kept, not the skeleton
+            key = "%s:content=%s@%s" % (curf[0], minj[1], "taken" if segact else "skipped")
+    res.count("failing_sequences" if counted else "failing_content_units")
     res.features.add("failure:" + key)
     res.violation(key, witness="\n".join(unit_lines(cur, "s0")), original="\n".join(unit_lines(u, "s0"))[:600],
                   detail=curf[1],
@@ -312,7 +351,7 @@ def run_side(ctx, case, res):
             for g in range(1, len(seq) + 1):
                 if seq[g - 1] == C.ENDIF:
                     continue
-                for kind in ("define", "undef", "error", "include"):
+                for kind in ("define", "undef", "error", "include") + tuple(sorted(CONTENT)):
                     u = (seq, p, (g, kind))
                     if kind == "error" and unit_truth(u)[1]:
                         continue        # an #error in a taken group is supposed to be acted upon: not this family
@@ -328,15 +367,24 @@ def run_side(ctx, case, res):
 # random tier
 # ---------------------------------------------------------------------------
 
-HASINCS = [('"present_c09.h"', True), ("<sys_c09.h>", True), ('"absent_c09.h"', False), ("<absent_c09>", False),
-           ('"sys_c09.h"', True)]
+# where a header exists -> what __has_include must say.  interrogate's documented lookup (find_include): "x" = cwd, the
+# includer's directory, then -I and -S directories; <x> = -S directories only.  g++: "x" = includer's directory, -I,
+# -isystem; <x> = -I, -isystem.  Only combinations on which the two rules agree are generated:
+#   includer's dir: "x" yes, <x> no      -I dir: "x" yes (<x>: they differ)     -S/-isystem dir: both yes
+#   cwd only:       <x> no ("x": they differ)                                    nowhere: both no
+HASINCS = [('"present_c09.h"', True), ("<present_c09.h>", False), ('"qi_c09.h"', True), ('"sys_c09.h"', True),
+           ("<sys_c09.h>", True), ("<cwd_c09.h>", False), ('"absent_c09.h"', False), ("<absent_c09>", False)]
+RDIR = "proj"          # the generated file lives in <case dir>/proj, the tools run with cwd = <case dir>
 
 
 def setup_incs(d):
-    os.makedirs(os.path.join(d, "sysinc"), exist_ok=True)
-    open(os.path.join(d, "present_c09.h"), "w").write("/* present */\n")
-    open(os.path.join(d, "sysinc", "sys_c09.h"), "w").write("/* sys */\n")
-    return [os.path.join(d, "sysinc")]
+    for sub in (RDIR, "quoteinc", "sysinc"):
+        os.makedirs(os.path.join(d, sub), exist_ok=True)
+    open(os.path.join(d, "cwd_c09.h"), "w").write("/* only in the working directory */\n")
+    open(os.path.join(d, RDIR, "present_c09.h"), "w").write("/* next to the includer */\n")
+    open(os.path.join(d, "quoteinc", "qi_c09.h"), "w").write("/* on -I */\n")
+    open(os.path.join(d, "sysinc", "sys_c09.h"), "w").write("/* on -S / -isystem */\n")
+    return {"S": [os.path.join(d, "sysinc")], "I": [os.path.join(d, "quoteinc")]}
 
 
 def gen_rand(case):
@@ -352,7 +400,7 @@ def run_rand(ctx, case, res):
     incs = setup_incs(d)
     f = gen_rand(case)
     text = "\n".join(f.lines) + "\n"
-    pr = Pair(d, "r.h", text, incs)
+    pr = Pair(d, RDIR + "/r.h", text, incs)
     res.count("files")
     if pr.exp != f.truth or pr.ref.rc != 0:
         res.inconclusive = "references disagree"
@@ -424,7 +472,7 @@ def run_sections(d, incs, secs, name, res=None):
         lines = []
         for k, ls, exp in todo:
             lines += ls
-        pr = Pair(d, "%s_%d.h" % (name, n), "\n".join(lines) + "\n", incs)
+        pr = Pair(d, "%s/%s_%d.h" % (RDIR, name, n), "\n".join(lines) + "\n", incs)
         st = pr.pf_state()
         if st == "timeout":
             for k, ls, exp in todo:
@@ -449,7 +497,7 @@ def run_sections(d, incs, secs, name, res=None):
             for k, ls, exp in todo[:mid]:
                 lines += ls
             n += 1
-            p2 = Pair(d, "%s_%d.h" % (name, n), "\n".join(lines) + "\n", incs, ref=False)
+            p2 = Pair(d, "%s/%s_%d.h" % (RDIR, name, n), "\n".join(lines) + "\n", incs, ref=False)
             if p2.pf_state() in (None, "timeout"):
                 lo = mid
             else:
@@ -772,7 +820,7 @@ def run_text(ctx, case, res):
     """a stored witness given as literal text with ct_<k>_t / ct_<k>_f markers (one standalone condition)."""
     d = ctx.casedir(case["id"])
     incs = setup_incs(d)
-    pr = Pair(d, "w.h", case["text"], incs)
+    pr = Pair(d, RDIR + "/w.h", case["text"], incs)
     res.count("files")
     if pr.pf_state():
         res.violation(case["key"], witness=case["text"], detail=pr.pf_state())
